@@ -11,8 +11,8 @@ from . import prog_engine as pe
 from .c09 import finish
 
 KINDS = {
-    'C01': ['flat', 'flat', 'multi', 'nested', 'tworoots'],
-    'C02': ['flat', 'multi', 'nested', 'nested', 'unsized', 'split', 'nestedx', 'tworoots'],
+    'C01': ['flat', 'flat', 'multi', 'nested', 'tworoots', 'payload'],
+    'C02': ['flat', 'multi', 'nested', 'nested', 'unsized', 'split', 'nestedx', 'tworoots', 'payload'],
     'C04': ['overlap', 'overlap', 'flat', 'nested', 'overlap', 'nestedx'],
 }
 PREFIX = {'C01': ['C01_'], 'C02': ['C02_'], 'C04': ['C04_']}
@@ -66,6 +66,9 @@ def run_prop(prop, tier, seed, replay=None, make_cases=None):
             seen[k] = seen.get(k, 0) + 1
         return out
     cases = make_cases(rng, n) if make_cases else systematic(n)
+    if prop == 'C01':
+        for i, c in enumerate(cases):
+            c.with_type = (i % 2 == 0)      # every other case: the trait also has an associated type item
     obs = pe.observe(cases, with_values=(prop == 'C01'))
     for c, o in zip(cases, obs):
         stats['cases'] += 1
@@ -127,7 +130,7 @@ def run_prop(prop, tier, seed, replay=None, make_cases=None):
                 want = pe.expected_values(c, app[0])
                 if tuple(vals) != want:
                     violations.append(dict(case_dump(c), kind='property', request=c.invocation(),
-                                           oracle='probe %s satisfies exactly block %d: expected items (NAME, ID, f()) = %s, the generated implementation gives %s'
+                                           oracle='probe %s satisfies exactly block %d: expected items (NAME, ID, f(), Out) = %s, the generated implementation gives %s'
                                                   % (c.probes[j][1], app[0], want, tuple(vals))))
                     break
             if V:
